@@ -370,8 +370,14 @@ func c12GovCase(g *c12Gen) {
 	f := w.be.(*c12Full)
 	h := w.be.lastHeight() + 1
 	sub := &c12Act{kind: "govsubmit", ver: w.version(w.be.last().min), target: g.target(h + 12)}
-	if w.r.Rng.Intn(3) > 0 { // mostly something that can pass
+	switch w.r.Rng.Intn(6) {
+	case 0, 1, 2: // mostly something that can pass
 		sub.ver = c12GoodVersions[w.r.Rng.Intn(len(c12GoodVersions))]
+	case 3:
+		sub.ver = c12Above(w.r, w.be.last().min)
+	case 4: // spells a version at or above the minimum, but is not one
+		sub.ver = c12NearMiss(w.r, c12AtOrAbove(w.r, w.be.last().min))
+		w.r.Stat("gen.gov.nearmiss")
 	}
 	w.runBlock(2*time.Second, nil, []*c12Act{sub}, nil)
 	if sub.res != "ok" {
